@@ -118,3 +118,12 @@ reg('C05', 'replace_cache', 'rule_sibling_splice')
 reg('C07', 'replace_cache', 'rule_sibling_splice')
 reg('C08', 'streams', 'rule_first_mapped')
 reg('C09', 'streams', 'rule_namecheck')
+
+# ---- strengthening after the independent breakage round 3
+reg('C15', 'views', 'rule_ioerr')            # SourceMap::to_writer is C15's writer
+reg('C07', 'caches', 'rule_memo_reset')
+reg('C10', 'caches', 'rule_memo_reset')
+reg('C14', 'caches', 'rule_memo_reset')
+reg('C12', 'streams', 'rule_enc_first_mapped')
+reg('C18', 'streams', 'rule_lockscope')
+reg('C15', 'jsonmap', 'rule_json_sibling')
